@@ -193,10 +193,15 @@ struct attr_path *attr_path_parse(const char *path_str, bool root)
     size_t offset = 0;
 
     for (;;) {
-	struct attr_pcomp **comp = &path->comps[path->num_comps];
-
 	if (offset == strlen(path_str))
 	    break;
+
+	if (path->num_comps == ATTR_PATH_COMP_MAX) {
+	    attr_path_destroy(path);
+	    return NULL;
+	}
+
+	struct attr_pcomp **comp = &path->comps[path->num_comps];
 
 	int rc = root ?
 	    attr_pcomp_parse_root(path_str, comp) :
